@@ -28,13 +28,11 @@ def plan(tier, seed):
         gs.append(Group('TABLE:identities[%s]' % n, T.g_tables_identities, ([n],)))
     for n in QS + ['qshift_b_bp']:
         gs.append(Group('TABLE:identities[%s]' % n, T.g_tables_identities, ([n],)))
-    gs.append(Group('LEMMA:qshift-PR-1d[qshift_06] (concrete taps, symbolic size)', D.g_qshift_pr_symbolic, ('qshift_06',)))
-    if dense:
-        # the other tables piecewise (interior by residue, boundary rows one by one + a covering obligation): the single query
-        # grows much faster than the filter length (hours for 18 taps), the pieces take seconds each and run in parallel
-        for n in QS:
-            if n == 'qshift_06':
-                continue
+    # 1-D q-shift PR with the exact taps and symbolic size, piecewise (interior by residue, boundary rows one by one + a covering
+    # obligation): the cost of the single query grows much faster than the filter length and depends on term order (30 s .. 300 s for
+    # 10 taps, hours for 18), the pieces take seconds each and run in parallel.  qshift_06 in both tiers, all five tables thorough.
+    if True:
+        for n in (QS if dense else ['qshift_06']):
             for kind, k in D.qshift_pr_pieces(n):
                 gs.append(Group('LEMMA:qshift-PR-1d[%s]/%s=%d' % (n, kind, k), D.g_qshift_pr_piece, (n, kind, k)))
         gs.append(Group('canary:qshift-PR-piece-perturbed', D.g_qshift_pr_piece, ('qshift_a', 'interior', 3), {'canary': True}, canary=True))
